@@ -171,7 +171,10 @@ def _configs(tier, salts):
                                 out.append((cfg, plan))
         # the broad option bank with the log switched on, every second budget up to 60
         if salt == 0 or tier == "thorough":
-            for name, cfg in cfgs.broad_cfgs(salt=salt, budgets=tuple(range(1, 61, 2 if tier == "quick" else 1)), reg_budgets=(1, 5, 9)):
+            plain = cfgs.broad_cfgs(salt=salt, budgets=tuple(range(1, 61, 2 if tier == "quick" else 1)), reg_budgets=(1, 5, 9))
+            pairs = [t for t in cfgs.broad_cfgs(salt=salt, budgets=(9, 20, 33, 46, 60) if tier == "quick" else tuple(range(1, 61, 2)),
+                                                exclude=("reg",), overlays=("avg", "soft")) if "+" in t[0]]
+            for name, cfg in plain + pairs:
                 cfg = dict(cfg, do_logging=True, tag_restart="broad", tag_noise="broad")
                 out.append((cfg, {"depth": 0}))
     return out
